@@ -78,7 +78,7 @@ _p('C02', ['R1', 'R36', 'R49'], 'abstract interpretation of two parallel lists; 
 _p('C03', ['R4', 'R50', 'R51'], 'interprocedural structural type inference + truthiness-context lint', 'TODO', 'TODO', 'TODO')
 _p('C04', ['R5', 'R1b', 'R8h', 'R11', 'R49', 'R51', 'R58', 'R29'], 'call-graph reachability + class-override scan; typed lookup lint; regex alphabets', 'TODO', 'TODO', 'TODO')
 _p('C05', ['R26', 'R27', 'R47', 'R23model', 'R14', 'R50'], 'symbolic list-shape evaluation; class-hierarchy check; typestate over sort/top', 'TODO', 'TODO', 'TODO')
-_p('C07', ['R19', 'R9', 'R16', 'R43', 'R23err', 'R18', 'R35', 'R10', 'R6', 'R23lex'], 'typestate dataflow on CFGs; call-result-use lint; provenance', 'TODO', 'TODO', 'TODO')
+_p('C07', ['R19', 'R9', 'R16', 'R43', 'R18', 'R35', 'R10', 'R6', 'R23lex'], 'typestate dataflow on CFGs; call-result-use lint; provenance', 'TODO', 'TODO', 'TODO')
 _p('C09', ['R6', 'R37', 'R12', 'R45'], 'splitter table + regex language equivalence', 'TODO', 'TODO', 'TODO')
 _p('C10', ['R11', 'R30', 'R31', 'R52'], 'typed lookup lint; loop-shape path checks; may-analysis of freshness', 'TODO', 'TODO', 'TODO')
 _p('C11', ['R31', 'R3', 'R38', 'R33', 'R36', 'R44'], 'may-analysis of freshness; constructor-argument lint; control-dependence facts', 'TODO', 'TODO', 'TODO')
